@@ -349,7 +349,7 @@ fn run_schedule_arrivals(prog: &Value, schedule: &[usize], path: &str, pinout: O
         // the fine-grained points inside the ordered-index updates and the version clock are decision points only for the
         // programs that name them; everywhere else the thread walks straight through
         while let Some(name) = arrived {
-            if !((name.starts_with("tree_") || name == "clock_load") && !fine_points.iter().any(|x| x == name)) { break; }
+            if !((name.starts_with("tree_") || name == "clock_load" || name == "ext_load") && !fine_points.iter().any(|x| x == name)) { break; }
             arrived = feoxdb::verif::sched::step(ids[pick], step_to);
         }
         arrivals.push((pick, arrived.unwrap_or("done")));
